@@ -546,6 +546,46 @@ def label_branch(loop, LABEL: str, label: str):
     return out
 
 
+def comp_as_loop(scope_body, name: str, comp: ast.ListComp):
+    """the loop that `name = [E for t in IT if c]` abbreviates (appends to `name`); None for nested generators"""
+    if len(comp.generators) != 1 or comp.generators[0].is_async:
+        return None
+    g = comp.generators[0]
+
+    def appends(e):
+        if isinstance(e, ast.IfExp):
+            return [ast.If(test=e.test, body=appends(e.body), orelse=appends(e.orelse))]
+        return [ast.Expr(value=ast.Call(func=ast.Attribute(value=ast.Name(id=name, ctx=ast.Load()), attr='append', ctx=ast.Load()),
+                                        args=[e], keywords=[]))]
+    body = appends(comp.elt)
+    for c in reversed(g.ifs):
+        body = [ast.If(test=c, body=body, orelse=[])]
+    it = inline_locals(scope_body, g.iter)
+    target = g.target
+    if isinstance(it, (ast.GeneratorExp, ast.ListComp)) and len(it.generators) == 1 and not it.generators[0].ifs:
+        body = [ast.Assign(targets=[target], value=it.elt)] + body
+        target, it = it.generators[0].target, inline_locals(scope_body, it.generators[0].iter)
+    lp = ast.For(target=target, iter=it, body=body, orelse=[])
+    ast.copy_location(lp, comp)
+    ast.fix_missing_locations(lp)
+    return lp
+
+
+def label_paths(loop, LABEL: str, label: str):
+    """what the replay loop executes for a step whose label equals `label`: the action lists of the paths of the loop body on which
+    `LABEL == label` holds (however the dispatch is written: if / elif, guard clauses, `in (..)` then a split, match), minus paths
+    that assume two different labels"""
+    out = []
+    want = f"{LABEL} == '{label}'"
+    for sp in astpaths.paths(loop.body):
+        if sp.end == 'raise':
+            continue
+        eqs = [c for c, b in sp.conds if b and re.fullmatch(rf"{re.escape(LABEL)} == '[^']*'", c)]
+        if want in eqs and len(set(eqs)) == 1:
+            out.append(sp.actions)
+    return out
+
+
 def inline_locals(stmts, e, keep=()):
     """`e` with every local that is assigned exactly once in `stmts` (a plain `name = expr`) replaced by its definition"""
     defs: dict[str, list] = {}
@@ -691,9 +731,9 @@ def operand_positions(ctx, py, fn, local_defs, theory, STACK, receivers, LABEL, 
         ok_unify = unify_mm(MT.parse_term(th['statement'][1:]), schema, binding)
         ctx.require(ok_unify, f'the prelude statement of {label} is not an instance of the {meth} schema')
         n = len(th['floats'])
-        branch = label_branch(loop, LABEL, label)
-        ctx.require(len(branch) == 1, f'exec_proof: branch for {label} not found')
-        body = branch[0][1]
+        bodies = label_paths(loop, LABEL, label)
+        ctx.require(len(bodies) >= 1 and len({tuple(id(x) for x in b) for b in bodies}) == 1, f'exec_proof: branch for {label} not found')
+        body = bodies[0]
         benv = {s.targets[0].id: s for s in body if isinstance(s, ast.Assign) and isinstance(s.targets[0], ast.Name)}
         push = [s for s in body for c in _own(s) if isinstance(c, ast.Call) and isinstance(c.func, ast.Attribute) and c.func.attr == meth
                 and ast.unparse(c.func.value) in receivers]
@@ -729,11 +769,24 @@ def operand_positions(ctx, py, fn, local_defs, theory, STACK, receivers, LABEL, 
     th = theory['proof-rule-mp']
     imp_first = [i for i, e in enumerate(th['essentials']) if '\\imp' in e]
     ctx.require(len(th['essentials']) == 2 and len(imp_first) == 1, 'prelude: proof-rule-mp does not have the expected two essential hypotheses')
-    mp = local_defs.get('do_mp')
-    ctx.require(mp is not None, 'exec_proof: local do_mp() not found')
-    menv = {s.targets[0].id: s.value for s in mp.body if isinstance(s, ast.Assign) and isinstance(s.targets[0], ast.Name)}
-    calls = [c for s in mp.body for c in _own(s) if isinstance(c, ast.Call) and isinstance(c.func, ast.Attribute) and c.func.attr == 'modus_ponens']
-    ctx.require(len(calls) == 1 and len(calls[0].args) == 2, 'do_mp: expected one modus_ponens(left, right) call')
+    # every place where the replay applies modus ponens (the proof-rule-mp branch and the discharge of essential hypotheses), whether
+    # written in place or in a nested procedure (those are expanded at load time): the operands are read off the tracked stack
+    mp_sites = []
+    scopes_ = [fn] + [g for g in ast.walk(fn) if isinstance(g, ast.FunctionDef) and g is not fn]
+    for holder in ast.walk(fn):
+        for fld in ('body', 'orelse', 'finalbody'):
+            blk = getattr(holder, fld, None)
+            if not (isinstance(blk, list) and blk and isinstance(blk[0], ast.stmt)):
+                continue
+            for i, st_ in enumerate(blk):
+                if isinstance(st_, (ast.If, ast.For, ast.While, ast.Try, ast.With, ast.Match, ast.FunctionDef)):
+                    continue
+                for c in _own(st_):
+                    if isinstance(c, ast.Call) and isinstance(c.func, ast.Attribute) and c.func.attr == 'modus_ponens' \
+                            and ast.unparse(c.func.value) in receivers:
+                        mp_sites.append((blk, i, c))
+    ctx.require(bool(mp_sites) and all(len(c.args) == 2 and not c.keywords for _b, _i, c in mp_sites),
+                'exec_proof: no modus_ponens(left, right) call found in the replay')
     # which parameter of BasicInterpreter.modus_ponens is the implication: the one whose conclusion is destructured as Implies
     bmp = py.method('BasicInterpreter', 'modus_ponens')
     bparams = [a.arg for a in bmp.args.args][1:]
@@ -754,27 +807,37 @@ def operand_positions(ctx, py, fn, local_defs, theory, STACK, receivers, LABEL, 
                     imp_param.add(p_)
     imp_param = sorted(imp_param)
     ctx.require(len(imp_param) == 1, 'BasicInterpreter.modus_ponens: cannot tell which argument is the implication')
-    slots = []
-    for a in calls[0].args:
-        v = menv.get(a.id) if isinstance(a, ast.Name) else a
-        pos = lin_index(v.slice, {}) if isinstance(v, ast.Subscript) and ast.unparse(v.value) == STACK else None
-        slots.append(pos.c if pos is not None and not pos.t else None)
     want = {}
     for i in range(2):
         want[bparams[i]] = -2 + (imp_first[0] if bparams[i] == imp_param[0] else 1 - imp_first[0])
-    got = dict(zip(bparams, slots))
-    ctx.ob('operand-position', 'proof-rule-mp/premises', got == want,
-           f'proof-rule-mp: the prelude pushes `{" ".join(th["essentials"][0])}` first and `{" ".join(th["essentials"][1])}` on top; '
-           f'modus_ponens takes the implication as `{imp_param[0]}`; expected slots {want}, found {got}', py.where(TR, calls[0]))
+    for k, (blk, i, call) in enumerate(mp_sites):
+        slots = []
+        for a in call.args:
+            v = a
+            if isinstance(a, ast.Name):
+                prev = [s_ for s_ in blk[:i] if isinstance(s_, ast.Assign) and len(s_.targets) == 1 and isinstance(s_.targets[0], ast.Name)
+                        and s_.targets[0].id == a.id]
+                v = prev[-1].value if prev else None
+                # nothing between the read and the call may change the stack
+                if prev and any(isinstance(c, ast.Call) and isinstance(c.func, ast.Attribute) and ast.unparse(c.func.value) in receivers
+                                for s_ in blk[blk.index(prev[-1]) + 1:i] for c in _own(s_)):
+                    v = None
+            pos = lin_index(v.slice, {}) if isinstance(v, ast.Subscript) and ast.unparse(v.value) == STACK else None
+            slots.append(pos.c if pos is not None and not pos.t else None)
+        got = dict(zip(bparams, slots))
+        ctx.ob('operand-position', 'proof-rule-mp/premises' + ('' if k == 0 else f'#{k + 1}'), got == want,
+               f'proof-rule-mp: the prelude pushes `{" ".join(th["essentials"][0])}` first and `{" ".join(th["essentials"][1])}` on top; '
+               f'modus_ponens takes the implication as `{imp_param[0]}`; expected slots {want}, found {got}', py.where(TR, call))
     # (4) app / imp constructors: left operand deeper
     for label, meth in (('app-is-pattern', 'app'), ('imp-is-pattern', 'implies')):
-        branch = label_branch(loop, LABEL, label)
-        ctx.require(len(branch) == 1, f'exec_proof: branch for {label} not found')
-        benv = {s.targets[0].id: s.value for s in branch[0][1] if isinstance(s, ast.Assign) and isinstance(s.targets[0], ast.Name)}
-        calls = [c for s in branch[0][1] for c in _own(s) if isinstance(c, ast.Call) and isinstance(c.func, ast.Attribute) and c.func.attr == meth
-                 and ast.unparse(c.func.value) in receivers]
+        bodies = label_paths(loop, LABEL, label)
+        ctx.require(len(bodies) >= 1 and len({tuple(id(x) for x in b) for b in bodies}) == 1, f'exec_proof: branch for {label} not found')
+        body = bodies[0]
+        benv = {s.targets[0].id: s.value for s in body if isinstance(s, ast.Assign) and isinstance(s.targets[0], ast.Name)}
+        calls = [c for s in body for c in _own(s) if isinstance(c, ast.Call) and isinstance(c.func, ast.Attribute)
+                 and c.func.attr in ('app', 'implies') and ast.unparse(c.func.value) in receivers]
         ok = False
-        if len(calls) == 1 and len(calls[0].args) == 2:
+        if len(calls) == 1 and len(calls[0].args) == 2 and calls[0].func.attr == meth:
             slots = []
             for a in calls[0].args:
                 v = benv.get(a.id) if isinstance(a, ast.Name) else a
@@ -788,8 +851,8 @@ def operand_positions(ctx, py, fn, local_defs, theory, STACK, receivers, LABEL, 
             order = [theory[label]['floats'].index(x[1]) for x in t[1:]]
             ok = slots == [-2 + order[0], -2 + order[1]]
         ctx.ob('operand-position', f'{label}/operands', ok,
-               f'{label}: the operands of {meth} must be the two floating hypotheses in prelude order (left at slot -2, right at -1)',
-               py.where(TR, branch[0][0]))
+               f'{label}: the step must build {meth}(left, right) from the two floating hypotheses in prelude order (left at slot -2, right '
+               f'at -1)', py.where(TR, body[0] if body else loop))
 
 
 def memory_map_standalone(ctx, py):
@@ -897,6 +960,14 @@ def publication(ctx, py, fn, tail, CONV, TARGET, STACK, receivers):
                         out.setdefault(pol, set()).add(re.sub(rf'\b{var}\b', '$AX', ast.unparse(arg)))
         return out
     decl_loops = [n for n in mn.body if isinstance(n, ast.For) and ast.unparse(n.iter).endswith('.exported_axioms')]
+    if not decl_loops:
+        # the comprehension spelling: `xs = [E for v in IT]` is `for v in IT: xs.append(E)`, a conditional element is an if / else of
+        # appends, and an iterable that is itself a generator `(F(n) for n in S)` is `for n in S: v = F(n); ..`
+        for st_ in mn.body:
+            if isinstance(st_, ast.Assign) and len(st_.targets) == 1 and isinstance(st_.targets[0], ast.Name) and isinstance(st_.value, ast.ListComp):
+                lp_ = comp_as_loop(mn.body, st_.targets[0].id, st_.value)
+                if lp_ is not None and ast.unparse(lp_.iter).endswith('.exported_axioms'):
+                    decl_loops.append(lp_)
     ctx.require(len(decl_loops) == 1, 'translate.main: loop declaring the exported axioms not found')
     declared = axiom_exprs(decl_loops[0].body, 'append')
     ax_branch = [b for b in ast.walk(fn) if isinstance(b, ast.If) and 'exported_axioms' in ast.unparse(b.test)]
@@ -906,9 +977,44 @@ def publication(ctx, py, fn, tail, CONV, TARGET, STACK, receivers):
            f'the pattern loaded for an axiom in the proof must be the pattern main() declares for it (with and without antecedents); '
            f'declared {sorted((k, sorted(v)) for k, v in declared.items())}, loaded {sorted((k, sorted(v)) for k, v in loaded.items())}',
            py.where(TR, decl_loops[0]))
-    src = ast.unparse(mn)
-    claims_ok = re.search(r'extracted_claims = \[(\w+)\.get_lemma_by_name\((\w+)\)\.pattern for \2 in \1\.lemmas\]', src) is not None \
-        and 'super().__init__(axioms=extracted_axioms, claims=extracted_claims)' in src
+    # what the proof module is constructed with: super().__init__(axioms=<the list the loop above fills>, claims=<the pattern of every
+    # lemma of the converter, in the converter's order>) - read off the call, locals resolved, names free
+    claims_ok = False
+    init_calls = [c for c in ast.walk(mn) if isinstance(c, ast.Call) and isinstance(c.func, ast.Attribute) and c.func.attr == '__init__'
+                  and isinstance(c.func.value, ast.Call) and isinstance(c.func.value.func, ast.Name) and c.func.value.func.id == 'super']
+    pe_init = py.method('ProofExp', '__init__', 'proof')
+    pe_params = [a.arg for a in pe_init.args.args[1:]] if pe_init is not None else []
+    if len(init_calls) == 1:
+        given = {k.arg: k.value for k in init_calls[0].keywords if k.arg}
+        for pn, a in zip(pe_params, init_calls[0].args):
+            given[pn] = a
+        ax_e, cl_e = given.get('axioms'), given.get('claims')
+        filled = None
+        lp0 = decl_loops[0]
+        for c in ast.walk(lp0):
+            if isinstance(c, ast.Call) and isinstance(c.func, ast.Attribute) and c.func.attr == 'append' and isinstance(c.func.value, ast.Name):
+                filled = c.func.value.id
+        ax_ok = isinstance(ax_e, ast.Name) and filled is not None and ax_e.id == filled
+        cl = cl_e
+        for _hop in range(4):                      # a local that only names the comprehension (other locals, e.g. the converter, stay names)
+            while isinstance(cl, ast.Call) and isinstance(cl.func, ast.Name) and cl.func.id in ('list', 'tuple') and len(cl.args) == 1:
+                cl = cl.args[0]
+            if isinstance(cl, ast.Name):
+                defs_ = [n.value for n in ast.walk(mn) if isinstance(n, (ast.Assign, ast.AnnAssign)) and n.value is not None
+                         and isinstance(n.targets[0] if isinstance(n, ast.Assign) else n.target, ast.Name)
+                         and (n.targets[0] if isinstance(n, ast.Assign) else n.target).id == cl.id]
+                cl = defs_[0] if len(defs_) == 1 else None
+        while isinstance(cl, ast.Call) and isinstance(cl.func, ast.Name) and cl.func.id in ('list', 'tuple') and len(cl.args) == 1:
+            cl = cl.args[0]
+        cl_ok = False
+        if isinstance(cl, (ast.ListComp, ast.GeneratorExp)) and len(cl.generators) == 1 and not cl.generators[0].ifs \
+                and isinstance(cl.generators[0].target, ast.Name):
+            g_ = cl.generators[0]
+            v_ = g_.target.id
+            it_ = g_.iter
+            cl_ok = isinstance(it_, ast.Attribute) and it_.attr == 'lemmas' and isinstance(it_.value, ast.Name) \
+                and ast.unparse(cl.elt) == f'{it_.value.id}.get_lemma_by_name({v_}).pattern'
+        claims_ok = ax_ok and cl_ok
     ctx.ob('publication', 'claims-are-lemma-patterns', claims_ok,
            'main() must declare the patterns of the converter\'s lemmas as claims and the collected axioms as axioms', py.where(TR, mn))
     ctx.floor('publication', 3)
